@@ -44,7 +44,8 @@ def main():
     if not os.path.exists(patch) and os.path.exists(os.path.join(out_dir, "patch.diff")):
         patch, demo = os.path.join(out_dir, "patch.diff"), os.path.join(out_dir, "demo.py")
     root = tempfile.mkdtemp(prefix="hxv-seed-", dir="/tmp")
-    meta = {"property": pid, "variant": label, "ran": []}
+    prop = sys.argv[sys.argv.index("--prop") + 1] if "--prop" in sys.argv else pid
+    meta = {"property": prop, "variant": f"{pid}-{label}" if prop != pid else label, "ran": []}
     env = dict(os.environ, PYTHONDONTWRITEBYTECODE="1")
     try:
         clean, mut = os.path.join(root, "clean"), os.path.join(root, "mut")
